@@ -54,7 +54,7 @@ RULE = ('trees first, text second. Quick, exhaustive: all trees of depth <= 1 ov
         'leaf parentheses, blanks, line feeds, function-name case), 3 rotating environments of cell values, '
         '1/50 also through a real workbook. Literals: all texts of length <= 2 (quick) / 3 (thorough) over a '
         '20-character alphabet x 3 contexts, stored number spellings, logicals, error literals. '
-        'References as arguments and operands: 43 formula shapes (cell, range, intersection, range operator, OFFSET / ROW / '
+        'References as arguments and operands: 45 formula shapes (cell, range, intersection, range operator, OFFSET / ROW / '
         'COLUMN / INDEX / INDIRECT forms, calls that return a reference as operand of every operator class and as '
         'argument of SUM / AVERAGE / MIN / MAX / COUNT / IF / IFERROR / SUMPRODUCT) x 20 sheet names of every legal kind '
         '(blanks, quotes, brackets, !, %, digits first, address-like, TRUE) x {own sheet, other sheet} x 2 spacings, '
@@ -897,6 +897,9 @@ def reference_formulas(q):
     yield 'two-ranges-in-call', f'=SUM({rng(1, 1, 1, 3)},{rng(4, 1, 4, 2)},{cell(2, 2)})', \
         total(1, 1, 1, 3) + total(4, 1, 4, 2) + g(2, 2)
     yield 'intersection', f'=SUM({rng(1, 1, 3, 2)} {rng(2, 2, 4, 3)})', total(2, 2, 3, 2)
+    yield 'intersection-in-one-cell', f'=SUM({rng(2, 1, 2, 3)} {rng(1, 2, 4, 2)})', g(2, 2)
+    # (row 5 and the rows below it are empty)
+    yield 'intersection-in-one-blank-cell', f'=1+SUM({rng(5, 1, 5, 3)} {rng(4, 2, 6, 2)})', 1
     if not q:
         # (with a sheet on both sides pycel declines: NotImplementedError 'Non-rectangular formulas')
         yield 'range-operator', f'=SUM({cell(1, 1)}:{cell(2, 2)})', total(1, 1, 2, 2)
